@@ -31,7 +31,7 @@ RULE = ("structure library of vlib/symlib.py (cubic: sc, CsCl, zincblende, diamo
         "symmetric (symmetrisation changed some matrix element by > 1e-3) and at least one k-point was compared")
 ASSUMPTIONS = ["the group is the one the code determines (irrep/spglib) from the given structure; the oracle quantifies over "
                "all its elements", "Berry curvature = internal + external terms when the model has AA, internal terms otherwise",
-               "tolerances: energies 1e-9(1+|E|), Berry curvature 1e-7*(scale+0.01)*max(1,(1e-3/gap)^2), spin 1e-9(1+scale), "
+               "tolerances: energies 1e-9(1+|E|), Berry curvature 1e-7*scale + max(1e-9, 1e-14 (L/gap)^2) (rounding noise of a curvature that vanishes by symmetry), spin 1e-9(1+scale), "
                "Hermiticity / idempotence 1e-10(1+scale), centres 1e-8 (reduced coordinates)",
                "k-points whose spectrum has a gap within [0.5e-4, 2e-4] (ambiguous for the 1e-4 degeneracy threshold of the "
                "tabulators) are skipped; band values are averages over degenerate groups, as the tabulators define them",
